@@ -38,7 +38,7 @@ def share_pool(rng, n_roots):
             # a whole pool member that is == an earlier one but spelled differently (2 against 2.0): whatever is
             # remembered under a key compared with == hands one of them the other's answer
             j = rng.randrange(len(flat))
-            if gen.respell(flat[j]) != flat[j]:
+            if sx.to_sx(gen.respell(flat[j])) != sx.to_sx(flat[j]):
                 twin = gen.respell(flat[j])
         if twin is not None:
             e = twin
@@ -220,6 +220,9 @@ def history_check(ctx, prop):
     for h in dag_rule_histories(rng, sizes(tier, 120, 2500)):
         hs.append(h)
         mls.append(model_lines_for(h))
+    for h in twin_histories(rng, sizes(tier, 60, 800)):
+        hs.append(h)
+        mls.append(model_lines_for(h))
     res = run_histories(hs)
     # model answers: pure functions of (expression, point)
     flat_lines = []
@@ -309,6 +312,30 @@ def dag_rule_histories(rng, n):
                  ['norm', 0], ['at', 2, 1]],
                 [['at', 2, 0], ['mkdiff', 0, 2, 1], ['dfcompexpr', 0, 2], ['norm', 2], ['at', 1, 0], ['at', 2, 1]]]
         out.append({'pool': [c, w, r], 'points': pts, 'ops': rng.choice(seqs)})
+    return out
+
+
+def twin_histories(rng, n):
+    """two pool members that are == but spelled differently (ints against integral floats), asked the same
+    symbolic and numeric questions one after the other: an answer remembered under a key compared with == (a
+    process-wide memo, a dictionary of results) is handed to the wrong one"""
+    out = []
+    tries = 0
+    while len(out) < n and tries < 20 * n:
+        tries += 1
+        e = gen.rexpr(rng, rng.randint(2, 9), [2, 3], p_const=0.45)
+        t = gen.respell(e)
+        if sx.to_sx(t) == sx.to_sx(e) or not sx.var_ids(e):
+            continue
+        v = rng.choice(sx.var_ids(e))
+        pts = [sx.point_sx(gen.positive_point(rng, [2, 3])), sx.point_sx(gen.rpoint(rng, [2, 3]))]
+        first, second = (0, 1) if rng.random() < 0.5 else (1, 0)
+        early = rng.randint(0, 1)
+        ops = [['mkpartial', 0, first, v, early], ['pexpr', 0], ['pat', 0, 0],
+               ['mkpartial', 1, second, v, early], ['pexpr', 1], ['pat', 1, 0],
+               ['mkdiff', 2, second, 1], ['dfcompexpr', 2, v], ['mkdiff', 3, first, 1], ['dfcompexpr', 3, v],
+               ['norm', first], ['norm', second], ['at', first, 1], ['at', second, 1]]
+        out.append({'pool': [sx.to_sx(e), sx.to_sx(t)], 'points': pts, 'ops': ops})
     return out
 
 
@@ -1134,6 +1161,18 @@ def check_C18(ctx):
         lines.append('LOCHASH %s %s %s' % (sx.point_sx(perms[0]), sx.point_sx(perms[1]), es))
         if len(ids) == 1:
             lines += ['ATNUM %s %s' % (sx.num_sx(1.5), es), 'DERIVNUM %s %s' % (sx.num_sx(1.5), es)]
+    # probes at the two ends of the batch: the same function at arguments that are == but not identical (a zero of
+    # either sign, an integer of either spelling); together with the reverse-order process this exposes a memo keyed by ==
+    heads_ = [lambda u: ('Sin', u), lambda u: ('Cos', u), lambda u: ('Exp', u, 2), lambda u: ('Exp', u, E), lambda u: ('Log', u, 2),
+              lambda u: ('Recip', u), lambda u: ('NthPow', u, 3), lambda u: ('NthRoot', u, 3), lambda u: ('Neg', u),
+              lambda u: ('Mul', [u, ('C', 3)]), lambda u: ('Power', ('C', 2), u), lambda u: ('Sin', ('Neg', u))]
+    first, last = [], []
+    for hd in heads_:
+        es_ = sx.to_sx(hd(('V', 2)))
+        for a_, b_ in ((-0.0, 0.0), (2, 2.0), (-1, -1.0), (0, -0.0)):
+            first += ['EVAL %s %s' % (sx.point_sx([(2, a_)]), es_), 'REV %s %s' % (sx.point_sx([(2, a_)]), es_)]
+            last += ['EVAL %s %s' % (sx.point_sx([(2, b_)]), es_), 'REV %s %s' % (sx.point_sx([(2, b_)]), es_)]
+    lines = first + lines + last
     model = core.run_model(lines)
     runs = {}
     for s in seeds:
